@@ -57,7 +57,7 @@ func sqlCol(p string) (owner, col string) {
 
 func runSQLTomb(c *core.Ctx) {
 	P := c.P
-	build := P.Sqlite.Func("buildEventQuery")
+	build := P.Func(P.Sqlite, "buildEventQuery")
 	if build == nil {
 		c.NoAnchor(nil, "sqlite.buildEventQuery")
 		return
@@ -290,7 +290,7 @@ func runSQLCol(c *core.Ctx) {
 			fmt.Sprintf("columns %v are bound to %v: position-wise provenance mismatch — a stored event would come back with swapped or foreign fields", cols, got))
 	}
 	// select ↔ scan ↔ toEvent
-	build := P.Sqlite.Func("buildEventQuery")
+	build := P.Func(P.Sqlite, "buildEventQuery")
 	var selCols []string
 	if build != nil {
 		for _, ci := range calls(build) {
@@ -440,7 +440,7 @@ func runSQLHash(c *core.Ctx) {
 	okTag := len(shapes) == 2 && shapes[0] == "name+value" && shapes[1] == "name+value"
 	c.Check(okTag, nil, "sqlite", "tag_hash", "-", fmt.Sprintf("writer and reader both hash md5(name+value) (%v)", where), fmt.Sprintf("tag hash shapes %v in %v: writer and reader disagree, so #x conditions never match stored tags", shapes, where))
 	// tombstone key vs addressable key: same expression over (hash(pubkey), hash(address)), same seed
-	key := P.Sqlite.Func("getEventKey")
+	key := P.Func(P.Sqlite, "getEventKey")
 	var tomb *ssa.Function
 	for _, fn := range sqliteFuncs(c) {
 		for _, call := range callsNamed(fn, "strings.Split") {
@@ -697,7 +697,7 @@ func runKindPartSQL(c *core.Ctx) {
 
 func runOrdSQL(c *core.Ctx) {
 	P := c.P
-	build := P.Sqlite.Func("buildEventQuery")
+	build := P.Func(P.Sqlite, "buildEventQuery")
 	if build == nil {
 		c.NoAnchor(nil, "sqlite.buildEventQuery")
 		return
@@ -738,7 +738,7 @@ func init() {
 
 func runSQLCond(c *core.Ctx) {
 	P := c.P
-	build := P.Sqlite.Func("buildEventQuery")
+	build := P.Func(P.Sqlite, "buildEventQuery")
 	if build == nil {
 		c.NoAnchor(nil, "sqlite.buildEventQuery")
 		return
